@@ -23,6 +23,7 @@
 -/
 import KskmProofs.Lemmas.C19Effects
 import KskmProofs.Lemmas.C19Inventory
+import KskmProofs.Lemmas.C19Listing
 import KskmProofs.Lemmas.C18Run
 import KskmProofs.C14
 namespace Kskm.C19
@@ -503,6 +504,34 @@ theorem inventory_lists_each_once (ext : Externals) (cfg : KmConfig) (infos : Li
       cases hl : (tableOf infos).lookup c with
       | none => simp [hl] at hx
       | some l => exact hsound _ _ hl x (by simpa [hl] using hx)
+
+/-- … at the level of the token's OBJECTS: when the listing of a slot of a well-formed store succeeds,
+    every public, private or secret key object of that slot — identified by class, label and id, an empty
+    CKA_ID counting as "no id" — is shown exactly once, and the store is as it was.  (Objects of other
+    classes — data, certificates — are not part of a KEY inventory: `keyInfoView` is `none` for them.) -/
+theorem inventory_lists_each_object_once (ext : Externals) (cfg : KmConfig) (st st' : Store) (hw : st.WF)
+    (p : String) (n : Nat) (s : SlotSt) (hs : st.slots p n = some s) (L : SlotListing)
+    (h : (slotListingP ext cfg p n).runSt st = (.ok L, st')) :
+    st' = st ∧ ∀ o ∈ s.objects, ∀ c lab id, keyInfoView o = some (c, lab, id) → appearances L c (lab, id) = 1 := by
+  unfold slotListingP at h
+  obtain ⟨infos, st1, h1, h2⟩ := runSt_bind_ok h
+  have hst : st1 = st := by
+    have := (getKeyInventoryP_ro p n).readOnly st
+    rw [h1] at this; exact this
+  subst hst
+  rw [runSt_liftP] at h2
+  simp only [Prod.mk.injEq] at h2
+  obtain ⟨hf, rfl⟩ := h2
+  refine ⟨rfl, ?_⟩
+  intro o ho c lab id hv
+  have hviews := getKeyInventoryP_ok hs (hw p n s hs).1 h1
+  have hm : (c, lab, id) ∈ infos.map KeyInfo.view := by
+    rw [hviews, List.mem_filterMap]; exact ⟨o, ho, hv⟩
+  obtain ⟨i, hi, hie⟩ := List.mem_map.mp hm
+  have := (inventory_lists_each_once ext cfg infos L hf).1 i hi
+  simp only [KeyInfo.view, Prod.mk.injEq] at hie
+  obtain ⟨rfl, rfl, rfl⟩ := hie
+  exact this
 
 /-- **Pairs are by label AND id.**  A label+id is shown as a "Signing key pair" exactly when the slot
     holds a public object and a private object with that label and that id. -/
